@@ -63,6 +63,14 @@ def run(ctx):
             for b in budgets(r, c):
                 sweep.append(run_line(p, e, f=f, m=b))
                 meta.append((p, f, c, v, b))
+    # a budget of 0 means unlimited: the same line under the largest explicit budget
+    linesmax = [run_line(p, e, f=f, m=2 ** 64 - 1) for p, e, f in base]
+    outsmax = vlib.run_impl("run", linesmax)
+    for l0, lm, o0, om in zip(lines0, linesmax, outs0, outsmax):
+        runlib.count_case(ctx, lm, nontrivial=(om or "").startswith("ok"))
+        if head(o0) != head(om):
+            ctx.violation("budget 0 (unlimited) and budget 2^64-1 give different outcomes",
+                          {"family": "run", "case": l0[:3000], "impl": o0, "max_budget_case": lm[:3000], "max_budget": om})
     # model vs implementation: the unlimited runs and the sweep
     runlib.correspond_run(ctx, lines0, name="run:unlimited")
     runlib.correspond_run(ctx, sweep, name="run:budget-sweep")
